@@ -13,7 +13,8 @@ RULE = ("random inputs of the strapdown model: non-unit orientation and mounting
         "non-zero bias on every axis, g of either sign, dt in [1e-4,0.5]; at each point an independent "
         "Hamilton-quaternion reference (40-digit mpmath) is compared with (a) the symbolic state_model "
         "evaluated through sympy->mpmath and (b) python.compile(symbolic_model).model(...) with CSE on/off; "
-        "non-trivial = point with all twelve IMU/bias components non-zero and a non-unit orientation; "
+        "states also through from_data as int64 lattice points, consecutive samples that hash alike (-1/-2), "
+        "input objects reused after in-place writes; non-trivial = point with all twelve IMU/bias components non-zero and a non-unit orientation; "
         "distinct = sha256 of the input point")
 ASSUMPTIONS = [
     "Hamilton convention; composed orientation Q = q (x) q_cal; acceleration = Q(0,f-b)Q*/|Q|^2 + (0,0,-g); "
